@@ -19,7 +19,7 @@ const (
 
 type svEnv struct {
 	*vEnv
-	k                          Keeper
+	k                               Keeper
 	owner, owner2, p1, p2, consumer sdk.AccAddress
 }
 
@@ -46,9 +46,13 @@ func newSvEnv(symbolicParams bool) *svEnv {
 }
 
 func svCoins(d string, a sdkmath.Int) sdk.Coins { return sdk.Coins{sdk.Coin{Denom: d, Amount: a}} }
-func (e *svEnv) reqEscrow(d string) *big.Int     { return e.bank.get(vModuleAddr(types.RequestAccName), d).BigInt() }
-func (e *svEnv) depEscrow(d string) *big.Int     { return e.bank.get(vModuleAddr(types.DepositAccName), d).BigInt() }
-func (e *svEnv) feeCol(d string) *big.Int        { return e.bank.get(vModuleAddr(svFeeCollector), d).BigInt() }
+func (e *svEnv) reqEscrow(d string) *big.Int {
+	return e.bank.get(vModuleAddr(types.RequestAccName), d).BigInt()
+}
+func (e *svEnv) depEscrow(d string) *big.Int {
+	return e.bank.get(vModuleAddr(types.DepositAccName), d).BigInt()
+}
+func (e *svEnv) feeCol(d string) *big.Int { return e.bank.get(vModuleAddr(svFeeCollector), d).BigInt() }
 func (e *svEnv) earned(p sdk.AccAddress, d string) *big.Int {
 	f, _ := e.k.GetEarnedFees(e.ctx, p)
 	return f.AmountOf(d).BigInt()
